@@ -40,3 +40,25 @@ def prelude():
             c.dumps()
         except Exception:
             pass
+
+
+def scramble(c):
+    """overwrite a copyright object in place (its paragraphs, their field objects, their dictionaries)"""
+    for p in list(c.paragraphs):
+        for name in list(getattr(p, '__dict__', {})):
+            v = getattr(p, name)
+            if isinstance(v, dict):
+                v.clear()
+                v['zz-scrambled'] = 'zz'
+            elif hasattr(v, '__dict__'):
+                for a in list(v.__dict__):
+                    x = getattr(v, a)
+                    if isinstance(x, list):
+                        del x[:]
+                        x.append('zz-scrambled')
+                    elif isinstance(x, str):
+                        try:
+                            setattr(v, a, 'zz-scrambled')
+                        except Exception:
+                            pass
+    del c.paragraphs[:]
